@@ -8,6 +8,8 @@ Part II (model): syndromes S[i] = crc(e_i) are read off the implementation, must
          pattern of weight 1..5 and every 24-bit window value at every offset (= every
          burst of length <= 24), by stepping all 2^24 LFSR states.
 Part III (conformance): errors applied to real valid frames through the real crc().
+Part IV (statelessness): every sequence of <= 3 (4) calls over {crc, crc(encode), crc_legacy, crc_legacy(encode), icao}
+         on the same frame string must return the reference value at every step.
 """
 import itertools
 import random
@@ -240,6 +242,48 @@ def w_model(arg):
     return w_model_bursts(None) if arg == "bursts" else w_model_weights(arg)
 
 
+def w_seq(arg):
+    """all sequences of <= depth calls over {crc, crc(encode), crc_legacy, crc_legacy(encode), icao} on ONE frame string:
+    every call must return the stateless reference value whatever was called before (hidden caches, mutated inputs)."""
+    frames, depth = arg
+    acc = Acc()
+    ops = {
+        "crc": lambda m: pms.crc(m),
+        "crc_enc": lambda m: pms.crc(m, encode=True),
+        "legacy": lambda m: PC.crc_legacy(m),
+        "legacy_enc": lambda m: PC.crc_legacy(m, encode=True),
+        "icao": lambda m: pms.icao(m),
+    }
+    for k, h in enumerate(frames):
+        n = len(h) * 4
+        v = int(h, 16)
+        want = {"crc": R.remainder(v, n), "legacy": R.remainder(v, n),
+                "crc_enc": R.parity(v >> 24, n - 24), "legacy_enc": R.parity(v >> 24, n - 24)}
+        letters = [i for i, c in enumerate(h) if c in "ABCDEF"]
+        idx = 0
+        for L in range(1, depth + 1):
+            for seq in itertools.product(sorted(ops), repeat=L):
+                # every sequence starts from the initial state: it gets its own spelling (letter-case pattern) of the
+                # frame, so that state keyed on the string (caches) cannot leak from one sequence into the next
+                idx += 1
+                m = list(h)
+                for b, pos in enumerate(letters):
+                    if (idx >> b) & 1:
+                        m[pos] = m[pos].lower()
+                m = "".join(m)
+                for i, op in enumerate(seq):
+                    got = ops[op](m)
+                    acc.n += 1
+                    if op in want and got != want[op]:
+                        acc.bad("%s:result_depends_on_previous_calls" % op.replace("_enc", ""),
+                                {"kind": "seq", "msg": m, "ops": list(seq[:i + 1])})
+                        break
+        if (1 << len(letters)) <= idx:
+            raise SystemExit("HARNESS-ERROR: frame %s has too few hex letters for %d isolated sequences" % (h, idx))
+        acc.out.add((n, "seq", v))
+    return acc.res()
+
+
 DISPATCH = {}
 
 
@@ -251,7 +295,7 @@ def w_any(t):
 
 
 def run(ctx):
-    DISPATCH.update(weight=w_weight, bytes=w_bytes, encode=w_encode, conf=w_conf, model=w_model)
+    DISPATCH.update(weight=w_weight, bytes=w_bytes, encode=w_encode, conf=w_conf, model=w_model, seq=w_seq)
     fns = ("crc", "crc_legacy")
     maxw = 4 if ctx.thorough else 3
     tasks = [("model", "bursts"), ("model", 112), ("model", 56)]
@@ -282,6 +326,20 @@ def run(ctx):
         for b in bases[n]:
             tasks += [("conf", (n, b, "w3", i0, 0)) for i0 in range(n)]
             tasks += [("conf", (n, b, "burst", i0, maxlen)) for i0 in range(n)]
+    sq = []
+    need = 10 if ctx.thorough else 8          # 2^need letter-case spellings >= number of sequences per frame
+    for n in LENS:
+        for df in (0, 4, 5, 11, 16, 17, 20, 21):
+            # search data fields until the frame has enough hex letters to give every sequence its own spelling
+            for salt in range(1, 4000):
+                data = (df << (n - 29)) | ((0xABCDEF * salt * 2654435761) & ((1 << (n - 29)) - 1))
+                for fr in (R.downlink(data, n, 0xFADEBC), R.downlink(data, n, 0) ^ (1 << 25)):
+                    h = R.hexf(fr, n)
+                    if sum(c in "ABCDEF" for c in h) >= need and h not in sq:
+                        sq.append(h)
+                if sum(1 for x in sq if len(x) * 4 == n and (int(x, 16) >> (n - 5)) == df) >= 2:
+                    break
+    tasks += [("seq", (sq[i:i + 4], 4 if ctx.thorough else 3)) for i in range(0, len(sq), 4)]
     ctx.cov["transitions"] = 0
     ctx.pmap(w_any, tasks)
     ctx.cov.update({
@@ -313,6 +371,18 @@ def replay(case):
             w = bin(e).count("1")
             acc.bad("crc:undetected_error:weight%d" % w, case)
             acc.bad("crc:undetected_error:burst", case)
+    elif k == "seq":
+        m = case["msg"]
+        n = len(m) * 4
+        v = int(m, 16)
+        want = {"crc": R.remainder(v, n), "legacy": R.remainder(v, n), "crc_enc": R.parity(v >> 24, n - 24), "legacy_enc": R.parity(v >> 24, n - 24)}
+        ops = {"crc": lambda x: pms.crc(x), "crc_enc": lambda x: pms.crc(x, encode=True), "legacy": lambda x: PC.crc_legacy(x),
+               "legacy_enc": lambda x: PC.crc_legacy(x, encode=True), "icao": lambda x: pms.icao(x)}
+        for op in case["ops"]:
+            got = ops[op](m)
+            if op in want and got != want[op]:
+                acc.bad("%s:result_depends_on_previous_calls" % op.replace("_enc", ""), case)
+                break
     elif k in ("model", "binding"):
         out = []
         for a in ("bursts", 112, 56):
